@@ -87,6 +87,13 @@ func Only(r Rule, patterns ...string) Rule {
 	}
 	return Rule{Name: r.Name, Run: func(c *core.Ctx) {
 		old := c.Filter
+		// function-name patterns are widened to the helpers those functions use on this tree
+		res := append([]*regexp.Regexp(nil), res...)
+		for i, p := range patterns {
+			if wide := expandFns(c.P, p); wide != p {
+				res[i] = regexp.MustCompile(wide)
+			}
+		}
 		c.Filter = func(rule, construct string) bool {
 			if old != nil && !old(rule, construct) {
 				return false
